@@ -291,7 +291,10 @@ def tigerxml(tree, stream, **params):
         stream.write(u"    <t id=\"%d\" " % terminal.data['num'])
         quoted = {}
         for field in ['word', 'lemma', 'label', 'morph']:
-            quoted[field] = quoteattr(terminal.data[field])
+            value = terminal.data[field]
+            if value is None and field in ['lemma', 'morph']:
+                value = u"--"
+            quoted[field] = quoteattr(value)
         stream.write(u"%s=%s " % ('word', quoted['word']))
         stream.write(u"%s=%s " % ('lemma', quoted['lemma']))
         stream.write(u"%s=%s " % ('pos', quoted['label']))
@@ -305,8 +308,11 @@ def tigerxml(tree, stream, **params):
                          % (subtree.data['num'],
                             quoteattr(subtree.data['label'])))
             for child in trees.children(subtree):
+                edge = child.data['edge']
+                if edge is None:
+                    edge = trees.DEFAULT_EDGE
                 stream.write(u"      <edge label=%s idref=\"%d\" />\n"
-                             % (quoteattr(child.data['edge']),
+                             % (quoteattr(edge),
                                 child.data['num']))
             stream.write(u"    </nt>\n")
     stream.write(u"  </nonterminals>\n")
